@@ -47,7 +47,8 @@ def main():
             t = sh('cd %s && /venv/bin/python -m pytest -q -p no:cacheprovider --timeout=900 --continue-on-collection-errors 2>&1 | tail -3' % wt)
             out['suite'] = t.stdout.strip().split('\n')[-1]
             print('suite with patch:', out['suite'])
-        sh('rsync -a --exclude .git --exclude replays /verif/ %s/' % vc)
+        root = os.path.dirname(os.path.dirname(os.path.abspath(__file__)))
+        sh('rsync -a --exclude .git --exclude replays %s/ %s/' % (root, vc))
         for p in props:
             t0 = time.time()
             r = sh('cd %s && PLACEMENT_REPO=%s ./check %s --tier %s' % (vc, wt, p, tier))
